@@ -15,6 +15,7 @@ import (
 
 	"verif/internal/gen"
 	"verif/internal/harness"
+	"verif/internal/memcon"
 	"verif/internal/refterm"
 	"verif/internal/vxh"
 )
@@ -538,7 +539,10 @@ func capsDiff(vx *vaxis.Vaxis, c refterm.Caps) string {
 // queries: replies must update exactly the answer they report
 
 type queryCase struct {
-	Caps   uint32 `json:"caps_mask"`
+	// OnlyOne: the terminal answers only the OSC 10 ("fg") or only the OSC 11
+	// ("bg") default-colour query
+	OnlyOne string `json:"terminal_answers_only,omitempty"`
+	Caps    uint32 `json:"caps_mask"`
 	Query  string `json:"query"`
 	Timing string `json:"timing"` // in-time | late | never
 	Keys   int    `json:"concurrent_keys"`
@@ -551,11 +555,16 @@ func runQuery(w *harness.W, r gen.R) {
 	if qc.Query != "cursor" && qc.Query != "clipboard" && qc.Timing == "never" {
 		qc.Timing = "in-time" // colour queries block by contract until answered
 	}
+	if (qc.Query == "bg" || qc.Query == "fg") && r.Intn(3) == 0 {
+		qc.OnlyOne = qc.Query
+	}
 	cj, _ := json.Marshal(qc)
 	w.Begin(string(cj))
 	defer w.End()
 	caps := refterm.CapsFromMask(qc.Caps)
-	sess, err := vxh.Start(80, 24, caps, vaxis.Options{}, nil)
+	sess, err := vxh.Start(80, 24, caps, vaxis.Options{}, func(t *refterm.Terminal, c *memcon.Console) {
+		t.NoOSC10, t.NoOSC11 = qc.OnlyOne == "bg", qc.OnlyOne == "fg"
+	})
 	if err != nil {
 		w.Inconclusive("start-failed")
 		return
@@ -641,8 +650,21 @@ func runQuery(w *harness.W, r gen.R) {
 	select {
 	case res = <-done:
 	case <-time.After(30 * time.Second):
-		w.Inconclusive("query-did-not-return")
+		// the terminal answered (in time or late): is the caller still waiting
+		// although the input loop is alive?
 		wedged = true
+		if qc.Timing != "never" {
+			if _, alive := sess.Sync(); alive {
+				dump := harness.AllStacks()
+				for _, blk := range strings.Split(dump, "\n\n") {
+					if strings.Contains(blk, "vaxis.(*Vaxis).Query") && strings.Contains(blk, "[chan receive") {
+						w.ViolationStack("query:"+qc.Query+":answer-never-reaches-the-caller", fmt.Sprintf("the terminal answered the %s query (%s) and the input loop is alive, but the caller is still waiting after 30s", qc.Query, qc.Timing), qc, "caller blocked", "the reply becomes the answer", blk)
+						return
+					}
+				}
+			}
+		}
+		w.Inconclusive("query-did-not-return")
 		return
 	}
 	var want []string
